@@ -30,6 +30,7 @@ func rulesC06(c *Ctx) {
 	ruleHeldOwner(c)
 	ruleRetryAfterInstall(c)
 	ruleStreamForwards(c, "MODIFY-FORWARDS", "Modify", "ModifyResponse")
+	ruleForwarderJoined(c) // a result handed to the stream writer is written before the RPC returns (shared with C11)
 	ruleOpResultID(c)
 	rulePendingWriters(c)
 	ruleStateWriters(c, writersRIB[:1])  // the pending set
@@ -929,4 +930,175 @@ func ruleResultsUntouched(c *Ctx, rule string, me *FuncInfo, okVars, failVars ma
 	}
 	c.check(bad == "", rule, me.Name, "the RIB's results reach the response unfiltered and in the order built", c.P.pos(me.Decl.Pos()),
 		"oks/fails are written by the RIB call only; the AFTResult list is only appended to", bad)
+}
+
+// FORWARDER-JOINED — the goroutine that writes results to the Modify stream is joined before the handler returns:
+// when the handler returns gRPC ends the stream, so a result that was handed to the writer but is still inside
+// ms.Send is lost — the operation is installed and never answered. The handler must wait (a bare receive from a
+// channel the writer closes by a deferred close, or WaitGroup.Wait against a deferred Done) on its way to every
+// return; and so that this wait cannot hang, every channel send of the writer sits in a select that also listens
+// for the handler's stop signal.
+func ruleForwarderJoined(c *Ctx) {
+	const rule = "FORWARDER-JOINED"
+	fi := c.need("server", "Server", "Modify")
+	if fi == nil {
+		return
+	}
+	info := fi.Pkg.TypesInfo
+	ps := paramObjs(info, fi.Decl)
+	if len(ps) == 0 {
+		c.undecided(rule, fi.Name, "stream parameter", c.P.pos(fi.Decl.Pos()), "Modify has no stream parameter")
+		return
+	}
+	stream := ps[0]
+	n := 0
+	for idx, st := range fi.Decl.Body.List {
+		gs, ok := st.(*ast.GoStmt)
+		if !ok {
+			continue
+		}
+		// the goroutine's body: a closure, or a named function of the package (its parameters stand for the
+		// handler's arguments)
+		var body *ast.BlockStmt
+		toHandler := func(o types.Object) types.Object { return o }
+		if fl, ok := ast.Unparen(gs.Call.Fun).(*ast.FuncLit); ok {
+			body = fl.Body
+		} else if f, ok := calleeObj(info, gs.Call).(*types.Func); ok && f.Pkg() == fi.Obj.Pkg() {
+			if cfi := c.P.infoFor(f); cfi != nil && cfi.Decl.Body != nil {
+				body = cfi.Decl.Body
+				bind := map[types.Object]types.Object{}
+				cps := paramObjs(info, cfi.Decl)
+				for i, a := range gs.Call.Args {
+					if i < len(cps) && cps[i] != nil {
+						if o := objOfIdent(info, a); o != nil {
+							bind[cps[i]] = o
+						}
+					}
+				}
+				toHandler = func(o types.Object) types.Object {
+					if h, ok := bind[o]; ok {
+						return h
+					}
+					return o
+				}
+			}
+		}
+		if body == nil {
+			continue
+		}
+		fl := &ast.FuncLit{Body: body}
+		writes := false
+		for _, call := range callsIn(fl.Body) {
+			if se, ok := ast.Unparen(call.Fun).(*ast.SelectorExpr); ok && se.Sel.Name == "Send" && toHandler(objOfIdent(info, se.X)) == stream {
+				writes = true
+			}
+		}
+		if !writes {
+			continue
+		}
+		n++
+		c.Sites++
+		// what the writer signals at exit
+		joinCh := map[types.Object]bool{}
+		joinWG := map[types.Object]bool{}
+		for _, s2 := range fl.Body.List {
+			ds, ok := s2.(*ast.DeferStmt)
+			if !ok {
+				continue
+			}
+			if id, ok := ast.Unparen(ds.Call.Fun).(*ast.Ident); ok && id.Name == "close" && len(ds.Call.Args) == 1 {
+				if o := toHandler(objOfIdent(info, ds.Call.Args[0])); o != nil {
+					joinCh[o] = true
+				}
+			}
+			if se, ok := ast.Unparen(ds.Call.Fun).(*ast.SelectorExpr); ok && se.Sel.Name == "Done" {
+				if o := toHandler(objOfIdent(info, se.X)); o != nil {
+					joinWG[o] = true
+				}
+			}
+		}
+		// the handler waits for it: a top-level statement after the go statement, before the final return
+		joined := false
+		for _, s2 := range fi.Decl.Body.List[idx+1:] {
+			es, ok := s2.(*ast.ExprStmt)
+			if !ok {
+				continue
+			}
+			switch x := ast.Unparen(es.X).(type) {
+			case *ast.UnaryExpr:
+				if x.Op == token.ARROW && joinCh[objOfIdent(info, x.X)] {
+					joined = true
+				}
+			case *ast.CallExpr:
+				if se, ok := ast.Unparen(x.Fun).(*ast.SelectorExpr); ok && se.Sel.Name == "Wait" && joinWG[objOfIdent(info, se.X)] {
+					joined = true
+				}
+			}
+		}
+		// returns before the join (nested returns after the go statement) defeat it
+		early := false
+		for _, s2 := range fi.Decl.Body.List[idx+1:] {
+			if _, isRet := s2.(*ast.ReturnStmt); isRet {
+				continue
+			}
+			inspectNoFuncLit(s2, func(m ast.Node) bool {
+				if _, ok := m.(*ast.ReturnStmt); ok {
+					early = true
+				}
+				return true
+			})
+		}
+		c.check(joined && !early, rule, fi.Name, "the stream writer is joined before the handler returns", c.P.pos(gs.Pos()), "the handler waits for the writer's exit signal on the way to its return",
+			"the handler returns without waiting for the goroutine that calls "+stream.Name()+".Send: a result handed to it just before the stream's end (client half-close, or a fatal error on a later message) is still being written when gRPC ends the stream — the operation is installed and its acknowledgement is lost")
+		// the writer never blocks on a channel the handler has stopped reading
+		bad := ""
+		var walk func(n ast.Node, sel *ast.SelectStmt)
+		walk = func(n ast.Node, sel *ast.SelectStmt) {
+			ast.Inspect(n, func(m ast.Node) bool {
+				switch x := m.(type) {
+				case *ast.FuncLit:
+					return m == n
+				case *ast.SelectStmt:
+					if m == n {
+						return true
+					}
+					for _, cc := range x.Body.List {
+						cl := cc.(*ast.CommClause)
+						if cl.Comm != nil {
+							walk(cl.Comm, x)
+						}
+						for _, b := range cl.Body {
+							walk(b, nil)
+						}
+					}
+					return false
+				case *ast.SendStmt:
+					stopCase := false
+					if sel != nil {
+						for _, cc := range sel.Body.List {
+							cl := cc.(*ast.CommClause)
+							if es, ok := cl.Comm.(*ast.ExprStmt); ok {
+								if u, ok := ast.Unparen(es.X).(*ast.UnaryExpr); ok && u.Op == token.ARROW {
+									if o := objOfIdent(info, u.X); o != nil {
+										if ct, ok := o.Type().Underlying().(*types.Chan); ok {
+											if stt, ok := ct.Elem().Underlying().(*types.Struct); ok && stt.NumFields() == 0 {
+												stopCase = true
+											}
+										}
+									}
+								}
+							}
+						}
+					}
+					if !stopCase && joined {
+						bad = "the stream writer sends on " + types.ExprString(x.Chan) + " (" + c.P.pos(x.Pos()) + ") outside a select that also listens for the handler's stop signal: once the handler has taken its one error it reads that channel no more, the writer blocks for ever and the handler's wait for it never ends"
+					}
+				}
+				return true
+			})
+		}
+		walk(fl.Body, nil)
+		c.check(bad == "", rule, fi.Name, "the joined writer cannot block on the handler", c.P.pos(gs.Pos()), "every channel send of the writer has a stop alternative", bad)
+	}
+	c.floor(rule, "goroutines of Modify that write to the stream", n, 1)
 }
